@@ -289,6 +289,20 @@ def run(ctx):
         ind = expand_aliases(ind, single_assign_aliases(wi))
     # the indent handed to the packer is the caller's option, at most converted from text: built from `indent` and int()/isinstance()/str only
     ind_names = {n.id for n in ast.walk(ind) if isinstance(n, ast.Name)} if ind is not None else set()
+    # locals computed from the option alone (a copy that is converted in a branch) stand for it
+    from_indent = {"indent"}
+    grew = True
+    while grew:
+        grew = False
+        for st0 in walk_no_nested(wi):
+            if isinstance(st0, ast.Assign) and len(st0.targets) == 1 and isinstance(st0.targets[0], ast.Name) and st0.targets[0].id not in from_indent:
+                defs0 = [a for a in walk_no_nested(wi) if isinstance(a, ast.Assign) and len(a.targets) == 1 and isinstance(a.targets[0], ast.Name) and a.targets[0].id == st0.targets[0].id]
+                if all({n.id for n in ast.walk(a.value) if isinstance(n, ast.Name)} <= from_indent | {st0.targets[0].id, "int", "isinstance", "str"} and
+                       not any(isinstance(n, ast.Constant) and isinstance(n.value, int) and not isinstance(n.value, bool) for n in ast.walk(a.value)) for a in defs0) \
+                        and any({n.id for n in ast.walk(a.value) if isinstance(n, ast.Name)} & from_indent for a in defs0):
+                    from_indent.add(st0.targets[0].id)
+                    grew = True
+    ind_names = {"indent" if n in from_indent else n for n in ind_names}
     ok = bool(packer_new) and norm(get_kw(packer_new[0], "pack_descriptors") or ast.Constant(None)) == "self.descriptors" and "indent" in ind_names and ind_names <= {"indent", "int", "isinstance", "str"} \
         and not any(isinstance(n, ast.Constant) and isinstance(n.value, int) and not isinstance(n.value, bool) for n in ast.walk(ind))
     ctx.check(ok, "R14.3", "JsonfileWriter.__init__:packer-options", "the packer is not configured from the writer's descriptors/indent options", wi,
